@@ -56,14 +56,18 @@ Definition inv (n : nat) (jobs : list item) (p0 : pool) (pm : pool * mstate) : P
   (forall w, w < n ->
      filterw n w (taken (snd pm)) ++ qnth (resq (fst pm)) w ++ qnth (pend (fst pm)) w = filterw n w jobs).
 
+Ltac split8 := refine (conj _ (conj _ (conj _ (conj _ (conj _ (conj _ (conj _ _))))))).
+
 Lemma inv_start n jobs p0 : 0 < n -> wf n p0 -> clean p0 -> inv n jobs p0 (start jobs p0).
 Proof.
-  intros Hn [Wp Wr] [Cp Cr]. unfold inv, start, submit, init_m; simpl.
+  intros Hn [Wp Wr] [Cp Cr]. unfold inv, start, submit, init_m, wf; simpl.
   fold (dist (length (pend p0)) jobs (pend p0)). rewrite Wp.
-  repeat split.
-  - rewrite dist_length. exact Wp.
-  - exact Wr.
+  split8.
+  - split; [rewrite dist_length; exact Wp | exact Wr].
   - rewrite dist_concat by auto. rewrite Cp, Cr. simpl. rewrite app_nil_r. reflexivity.
+  - reflexivity.
+  - reflexivity.
+  - reflexivity.
   - intro H. apply Nat.eqb_eq in H. lia.
   - exists []. rewrite app_nil_r, Cr. split; auto.
   - intros w Hw. rewrite dist_qnth by auto. rewrite !(concat_nil_qnth _ w) by assumption. reflexivity.
@@ -73,11 +77,10 @@ Lemma inv_stepF n jobs p0 w p m : inv n jobs p0 (p, m) -> inv n jobs p0 (stepF w
 Proof.
   intros (W & Pm & Cn & Tg & Ex & Dn & (ev & Ee & Ep) & Or). simpl in *.
   unfold stepF. destruct (qnth (pend p) w) as [|it rest] eqn:Hq.
-  { unfold inv; simpl. repeat split; try tauto. exists ev; auto. }
+  { unfold inv; simpl. split8; auto. exists ev; auto. }
   destruct W as [Wp Wr]. pose proof (qnth_cons_lt _ _ _ _ Hq) as Hw. rewrite Wp in Hw.
-  unfold inv; simpl. repeat split; auto.
-  - rewrite upd_length. exact Wp.
-  - rewrite upd_length. exact Wr.
+  unfold inv, wf; simpl. split8; [ | | exact Cn | exact Tg | exact Ex | exact Dn | | ].
+  - rewrite !upd_length. auto.
   - rewrite Pm. apply (perm_move_12 _ _ _ _ _ it).
     + apply concat_upd_tail. exact Hq.
     + apply concat_upd_snoc. lia.
@@ -94,13 +97,13 @@ Lemma inv_take n jobs p0 pm : 0 < n -> inv n jobs p0 pm -> inv n jobs p0 (take p
 Proof.
   intros Hn. destruct pm as [p m]. intros (W & Pm & Cn & Tg & Ex & Dn & (ev & Ee & Ep) & Or). simpl in *.
   unfold take. destruct (qnth (resq p) (cursor m)) as [|it rest] eqn:Hq.
-  { unfold inv; simpl. repeat split; try tauto. exists ev; auto. }
+  { unfold inv; simpl. split8; auto. exists ev; auto. }
   destruct W as [Wp Wr]. pose proof (qnth_cons_lt _ _ _ _ Hq) as Hc. rewrite Wr in Hc.
   assert (Hit : fst it mod n = cursor m).
   { apply (filterw_in n (cursor m) jobs). rewrite <- (Or _ Hc). rewrite Hq.
     apply in_or_app; right. left; reflexivity. }
-  unfold inv; simpl. repeat split; auto.
-  - rewrite upd_length. exact Wr.
+  unfold inv, wf; simpl. split8; [ | | | exact Tg | | | | ].
+  - rewrite upd_length. auto.
   - rewrite Pm. apply perm_move_23. apply concat_upd_tail. exact Hq.
   - rewrite app_length. simpl. lia.
   - rewrite last_exc_app, Ex. reflexivity.
@@ -119,7 +122,8 @@ Qed.
 Lemma inv_next n jobs p0 p m k : inv n jobs p0 (p, m) -> inv n jobs p0 (p, next k m).
 Proof.
   intros (W & Pm & Cn & Tg & Ex & Dn & Ev & Or). simpl in *.
-  unfold next. destruct (S (cursor m) <? k); unfold inv; simpl; repeat split; try tauto.
+  unfold next. destruct (S (cursor m) <? k); unfold inv; simpl;
+    (split8; [exact W | exact Pm | exact Cn | exact Tg | exact Ex | | exact Ev | exact Or]); auto.
   intro H. apply Nat.leb_le in H. exact H.
 Qed.
 
@@ -153,8 +157,9 @@ Proof.
   intros (W & Pm & Cn & Tg & Ex & Dn & (ev & Ee & Ep) & Or) D. simpl in *. specialize (Dn D).
   rewrite app_assoc in Pm. apply perm_length_sub in Pm; [|lia].
   destruct Pm as [Hnil Pm]. apply app_eq_nil in Hnil. destruct Hnil as [Hp Hr].
-  repeat split; auto.
+  refine (conj _ (conj _ (conj W (conj _ (conj _ Ex))))).
   - symmetry. exact Pm.
+  - split; assumption.
   - exists ev. split; auto. rewrite Ep, Hr. simpl. symmetry. exact Pm.
   - intros w Hw. rewrite <- (Or w Hw). rewrite !(concat_nil_qnth _ w) by assumption. rewrite !app_nil_r. reflexivity.
 Qed.
@@ -204,8 +209,8 @@ Qed.
 
 Lemma filterw_one (l : list item) : filterw 1 0 l = l.
 Proof.
-  unfold filterw. induction l as [|x l IH]; simpl; auto.
-  rewrite Nat.mod_1_r. simpl. rewrite IH. reflexivity.
+  unfold filterw. induction l as [|x l IH]; cbn [filter]; auto.
+  rewrite Nat.mod_1_r. cbn [Nat.eqb]. rewrite IH. reflexivity.
 Qed.
 
 (* with ONE process, map is serial evaluation: same results in the same order, same exception *)
@@ -239,8 +244,10 @@ Definition batch_good (outs : list (outcome R E)) (o : batch_obs R E) : Prop :=
 Lemma evals_once (outs : list (outcome R E)) (ev : list item) :
   Permutation ev (enum outs) -> map (fun k => count_tag k ev) (seq 0 (length outs)) = repeat 1 (length outs).
 Proof.
-  intro H. rewrite <- (map_const_seq 0). apply map_ext_in. intros k Hk. apply in_seq in Hk.
-  rewrite (count_tag_perm _ _ k H). apply count_tag_enum. lia.
+  intro H. transitivity (map (fun _ : nat => 1) (seq 0 (length outs))).
+  - apply map_ext_in. intros k Hk. apply in_seq in Hk.
+    rewrite (count_tag_perm _ _ k H). apply count_tag_enum. lia.
+  - rewrite map_const_repeat, seq_length. reflexivity.
 Qed.
 
 Lemma in_enum_exc (outs : list (outcome R E)) (it : item) :
@@ -285,9 +292,9 @@ Theorem map_batches n (bs : list (list (outcome R E) * list action)) (p0 : pool)
   Forall (fun o => bo_done o = true) (batches false bs p0) ->
   Forall2 (fun b o => batch_good (fst b) o) bs (batches false bs p0).
 Proof.
-  intros Hn. revert p0; induction bs as [|[outs sched] bs IH]; intros p0 W C HD; simpl in *; [constructor|].
-  destruct (batch false outs sched p0) as [p1 o] eqn:Hb. inversion HD; subst.
-  destruct (batch_current_good n outs sched p0 p1 o Hn W C Hb H1) as (W1 & C1 & G).
+  intros Hn. revert p0; induction bs as [|[outs sched] bs IH]; intros p0 W C HD; cbn [batches] in *; [constructor|].
+  destruct (batch false outs sched p0) as [p1 o] eqn:Hb. inversion HD as [|? ? Hd1 Hd2]; subst.
+  destruct (batch_current_good n outs sched p0 p1 o Hn W C Hb Hd1) as (W1 & C1 & G).
   constructor; auto.
 Qed.
 
